@@ -26,6 +26,8 @@ from __future__ import annotations
 
 import ast
 
+from .srcmodel import AnchorMissing
+
 MUT_METHODS = {"append", "extend", "insert", "remove", "pop", "clear", "sort", "reverse", "update", "add", "discard", "setdefault",
                "fill", "put", "itemset", "resize", "popitem", "setflags", "__setitem__", "appendleft", "popleft", "partition", "byteswap"}
 # receiver-preserving (view / same object) methods and functions
@@ -412,14 +414,14 @@ class _FnPass:
         gq = f"{self.m.name}.{n.id}"
         if gq in self.globs:
             self.s.greads.append((gq, n))
-            return {Origin("global", gq, arrayish=True)}
+            return {Origin("global", gq, arrayish=self._arrayish_global(gq))}
         # imported mutable global of another module:  from .x import CACHE
         d = self.m.aliases.get(n.id)
         if d and d.startswith("cryocat."):
             g2 = d[len("cryocat."):]
             if g2 in self.globs:
                 self.s.greads.append((g2, n))
-                return {Origin("global", g2, arrayish=True)}
+                return {Origin("global", g2, arrayish=self._arrayish_global(g2))}
         return set()
 
     def av(self, e, env):
@@ -438,13 +440,13 @@ class _FnPass:
                 g = d[len("cryocat."):]
                 if g in self.globs:
                     self.s.greads.append((g, e))
-                    return {Origin("global", g, arrayish=True)}
+                    return {Origin("global", g, arrayish=self._arrayish_global(g))}
             if isinstance(e.value, ast.Name) and e.value.id in ("self", "cls") and self.owner:
                 for cq in self.prog.mro(self.owner):
                     g = f"{cq}.{e.attr}"
                     if g in self.globs and not self._instance_assigns(e.attr):
                         self.s.greads.append((g, e))
-                        return {Origin("global", g, arrayish=True)}
+                        return {Origin("global", g, arrayish=self._arrayish_global(g))}
             base = self.av(e.value, env)
             if e.attr in VIEW_ATTRS:
                 return {o.view(arrayish=e.attr in ("T", "values", "real", "imag", "flat")) for o in base}
@@ -512,6 +514,18 @@ class _FnPass:
             if isinstance(ch, ast.expr):
                 self.av(ch, env)
         return set()  # arithmetic, comparisons, constants, f-strings: fresh values
+
+    def _arrayish_global(self, g):
+        """a module/class-level list / dict / set holds references to its elements (G[k] is the stored object itself); only other values
+        (arrays) are indexed into views or copies"""
+        v = self.globs.get(g)
+        if isinstance(v, (ast.Dict, ast.List, ast.Set, ast.DictComp, ast.ListComp, ast.SetComp, ast.Tuple)):
+            return False
+        if isinstance(v, ast.Call):
+            f = v.func.attr if isinstance(v.func, ast.Attribute) else v.func.id if isinstance(v.func, ast.Name) else ""
+            if f in ("dict", "list", "set", "defaultdict", "OrderedDict", "deque", "WeakValueDictionary", "Counter"):
+                return False
+        return True
 
     def _instance_assigns(self, attr):
         """does any method of the class hierarchy assign self.<attr> (then Class.<attr> is just a default)?"""
@@ -821,6 +835,38 @@ def _reads_files(eff, q, sc, memo, depth=0):
     return False
 
 
+def _optional_table(fn, name):
+    """is `name` a parameter of fn whose default is the literal None?"""
+    a = fn.args
+    pos = a.posonlyargs + a.args
+    pairs = list(zip(pos[len(pos) - len(a.defaults):], a.defaults)) + [(p, d) for p, d in zip(a.kwonlyargs, a.kw_defaults) if d is not None]
+    return any(p.arg == name and isinstance(d, ast.Constant) and d.value is None for p, d in pairs)
+
+
+def _memo_store(prog, ef):
+    """is the write `table[key] = value` of a memo: in the function that contains it, `table` is a parameter with default None, `key` a plain
+    variable, and the same function reads the table back by the same key (`table.get(key)`, `key in table`, `table[key]`)?"""
+    try:
+        m, f = prog.func(ef.src)
+    except AnchorMissing:
+        return False
+    for n in ast.walk(f):
+        if isinstance(n, ast.Subscript) and isinstance(n.ctx, ast.Store) and isinstance(n.value, ast.Name) and isinstance(n.slice, ast.Name) \
+                and f"`{_txt(n)[:60]}`" in ef.how and _optional_table(f, n.value.id):
+            t, k = n.value.id, n.slice.id
+            for r in ast.walk(f):
+                if isinstance(r, ast.Call) and isinstance(r.func, ast.Attribute) and r.func.attr == "get" and isinstance(r.func.value, ast.Name) \
+                        and r.func.value.id == t and r.args and isinstance(r.args[0], ast.Name) and r.args[0].id == k:
+                    return True
+                if isinstance(r, ast.Compare) and len(r.ops) == 1 and isinstance(r.ops[0], (ast.In, ast.NotIn)) and isinstance(r.left, ast.Name) \
+                        and r.left.id == k and isinstance(r.comparators[0], ast.Name) and r.comparators[0].id == t:
+                    return True
+                if isinstance(r, ast.Subscript) and isinstance(r.ctx, ast.Load) and isinstance(r.value, ast.Name) and r.value.id == t \
+                        and isinstance(r.slice, ast.Name) and r.slice.id == k:
+                    return True
+    return False
+
+
 def analyse(prog, entries, report_param_for=None):
     """entries: qualified names of the property's functions.  -> Report"""
     eff = Effects(prog)
@@ -836,8 +882,17 @@ def analyse(prog, entries, report_param_for=None):
             rep.sites += 1
             if ef.kind == "E-param" and q not in report_param_for:
                 continue
-            if ef.kind == "E-global" and not ef.origin.path and ef.op.startswith("setitem") and ef.src == q and not ef.via:
-                continue  # filling a module-level table: the hidden-state rule (E-state) decides whether reading it back is sound
+            if ef.kind == "E-param" and not ef.origin.path and ef.op.startswith("setitem") and _optional_table(fn, ef.origin.name) \
+                    and _memo_store(prog, ef):
+                # `def f(..., memo=None)` filled with memo[key] = value: a table the caller hands in on purpose to be filled (a memo it owns and
+                # drops itself).  Whether the key covers everything the remembered value depends on is not decided here
+                rep.undecided.append({"kind": "E-param", "fn": q, "root": ef.origin.root(), "src": ef.src, "op": ef.op, "node": ef.node, "module": m,
+                                      "message": f"the optional table `{ef.origin.name}` (default None) handed in by the caller is filled with "
+                                                 "`[key] = value`: a caller-owned memo; whether its key covers everything the stored value depends on "
+                                                 "cannot be decided from the source"})
+                continue
+            if ef.kind == "E-global" and not ef.origin.path and ef.op.startswith("setitem"):
+                continue  # filling a module-level table (here or in a callee): the hidden-state rule (E-state) decides whether reading it back is sound
             rep.items.append({"kind": ef.kind, "fn": q, "root": ef.origin.root(), "src": ef.src, "op": ef.op, "node": ef.node, "module": m,
                               "message": {"E-param": f"an in-place write reaches the caller's argument `{ef.origin.name}`"
                                           + (f" (its part .{'.'.join(ef.origin.path)})" if ef.origin.path else "")
@@ -864,6 +919,16 @@ def analyse(prog, entries, report_param_for=None):
                     item["message"] = (f"{name} on a function whose result comes from a file: the result is remembered by argument (path) only, a "
                                        "file rewritten since the first call is never read again")
                     rep.items.append(item)
+                elif prog.enclosing_class(q) is not None and fn.args.args and fn.args.args[0].arg == "self" and any(
+                        isinstance(x, ast.Attribute) and isinstance(x.value, ast.Name) and x.value.id == "self" and isinstance(x.ctx, ast.Load)
+                        for x in ast.walk(fn)):
+                    # a memoised *method*: the object is part of the key by identity only, the result is computed from what the object holds now
+                    item["message"] = (f"{name} on a method that reads the state of its object (self.<attribute>): the result is remembered per object "
+                                       "identity and arguments, so it goes stale as soon as the object's table is edited (selection, renumbering and "
+                                       "removal all change self.df without changing the object)")
+                    rep.items.append(item)
+                elif _pure_memo(prog, eff, q, sc, m, fn):
+                    pass  # every argument is in the key, nothing else is read, and what is handed out cannot be changed by the callers
                 else:
                     item["message"] = f"{name}: results are shared between calls; whether they are immutable cannot be decided from the source"
                     rep.undecided.append(item)
@@ -904,6 +969,62 @@ def analyse(prog, entries, report_param_for=None):
                 rep.items.append(item)
             # complete key: sharing of the cached object is reported by E-share / E-global
     return rep
+
+
+_SCALAR_FUNCS = {"cos", "sin", "tan", "radians", "deg2rad", "degrees", "rad2deg", "sqrt", "abs", "round", "min", "max", "float", "int", "str", "bool",
+                 "tuple", "frozenset", "len", "floor", "ceil", "hypot", "exp", "log", "divmod", "isinstance", "format"}
+
+
+def _pure_memo(prog, eff, q, sc, m, fn):
+    """lru_cache / cache on `fn` is harmless when (a) the function is not a method reading its object, reads no module/class-level container
+    that is written anywhere and no file: its result is a function of the arguments, all of which are in the key; and (b) the object it hands
+    out to every caller cannot be changed by them: a tuple / constant / enum member / scalar expression of the arguments, or an array the
+    function itself switches to read-only before returning it"""
+    s = eff.summary(q, sc)
+    if s.greads or _reads_files(eff, q, sc, {}):
+        return False
+    if fn.args.args and fn.args.args[0].arg in ("self", "cls"):
+        return False
+    frozen = set()
+    for n in ast.walk(fn):
+        if isinstance(n, ast.Assign) and len(n.targets) == 1 and isinstance(n.targets[0], ast.Attribute) and n.targets[0].attr == "writeable" \
+                and isinstance(n.targets[0].value, ast.Attribute) and n.targets[0].value.attr == "flags" and isinstance(n.targets[0].value.value, ast.Name) \
+                and isinstance(n.value, ast.Constant) and n.value.value is False:
+            frozen.add(n.targets[0].value.value.id)
+        if isinstance(n, ast.Call) and isinstance(n.func, ast.Attribute) and n.func.attr == "setflags" and isinstance(n.func.value, ast.Name) \
+                and any(k.arg == "write" and isinstance(k.value, ast.Constant) and k.value.value is False for k in n.keywords):
+            frozen.add(n.func.value.id)
+    params = {a.arg for a in fn.args.posonlyargs + fn.args.args + fn.args.kwonlyargs}
+
+    def immutable(e, depth=0):
+        if isinstance(e, ast.Constant):
+            return True
+        if isinstance(e, ast.Tuple):
+            return all(immutable(x, depth + 1) for x in e.elts)
+        if isinstance(e, ast.Attribute):  # an enum member / a module constant
+            return isinstance(e.value, ast.Name) and e.value.id[:1].isupper()
+        if isinstance(e, ast.Name):
+            if e.id in frozen:
+                return True
+            if e.id in params:
+                return True  # the caller's own (hashable) argument
+            defs = [a.value for a in ast.walk(fn) if isinstance(a, ast.Assign) and any(isinstance(t, ast.Name) and t.id == e.id for t in a.targets)]
+            return bool(defs) and depth < 4 and all(immutable(d, depth + 1) for d in defs)
+        if isinstance(e, (ast.BinOp,)):
+            return immutable(e.left, depth + 1) and immutable(e.right, depth + 1)
+        if isinstance(e, ast.UnaryOp):
+            return immutable(e.operand, depth + 1)
+        if isinstance(e, ast.IfExp):
+            return immutable(e.body, depth + 1) and immutable(e.orelse, depth + 1)
+        if isinstance(e, ast.Compare):
+            return True
+        if isinstance(e, ast.Call):
+            fname = e.func.attr if isinstance(e.func, ast.Attribute) else e.func.id if isinstance(e.func, ast.Name) else None
+            return fname in _SCALAR_FUNCS and all(immutable(a, depth + 1) for a in e.args) and not e.keywords
+        return False
+
+    rets = [r.value for r in ast.walk(fn) if isinstance(r, ast.Return)]
+    return bool(rets) and all(r is not None and immutable(r) for r in rets)
 
 
 def _memo_key_missing(fn, gname):
